@@ -82,6 +82,8 @@ type found struct {
 	Run   uint64 `json:"run"`
 	Trace *trace `json:"trace"`
 	Hash  string `json:"hash"`
+	// scen: scenario (plus "+race") that produced a crash-class finding
+	scen string
 }
 
 type sample struct {
@@ -269,6 +271,13 @@ var frameRe = regexp.MustCompile(`^([A-Za-z0-9_./\-]+(\.[A-Za-z0-9_(*).\-]+)+)\(
 // crash of the code under test; anything else is harness trouble.
 func classifyCrash(stderr string) (real bool, origin, headline string) {
 	lines := strings.Split(stderr, "\n")
+	for _, l := range lines {
+		// the worker's watchdog found goroutines of the run waiting on a mutex of the code under test
+		if strings.HasPrefix(l, "WEDGE: ") {
+			fn, _, _ := strings.Cut(strings.TrimPrefix(l, "WEDGE: "), " ")
+			return true, fn, "LOCK WEDGE"
+		}
+	}
 	start := -1
 	for i, l := range lines {
 		if strings.HasPrefix(l, "panic: ") || strings.HasPrefix(l, "fatal error: ") {
@@ -533,13 +542,18 @@ func main() {
 				if head == "DATA RACE" {
 					oracle, key = "data_race", "race in "+origin
 				}
+				if head == "LOCK WEDGE" {
+					oracle, key = "process_wedge", "requests wait for a lock that is held across a blocking operation: "+origin
+				}
+				fmt.Fprintf(os.Stderr, "check: worker %d of %s died in run %s: %s in %s\n", i, name, o.run, head, origin)
 				f := found{violation: violation{Property: prop, Oracle: oracle, Key: key, Msg: head + "\n" + crashExcerpt(o.stderr)}, Run: run}
 				f.Trace = nil
-				crashes = append(crashes, f)
-				crashInfo[key] = j.m.Name
+				f.scen = j.m.Name
 				if j.race {
-					crashInfo[key] = j.m.Name + "+race"
+					f.scen += "+race"
 				}
+				crashes = append(crashes, f)
+				crashInfo[key] = f.scen
 				continue
 			}
 			s := o.sum
@@ -632,12 +646,12 @@ func main() {
 			continue
 		}
 		seen[k] = true
-		scName := strings.TrimSuffix(crashInfo[f.Key], "+race")
+		scName := strings.TrimSuffix(f.scen, "+race")
 		rf := replayFile{Property: prop, Scenario: scName, VerifSeed: seed, Run: f.Run, Seed: mix(seed, scName, f.Run),
-			Toolchain: "go1.26.8", Race: strings.HasSuffix(crashInfo[f.Key], "+race"), Violation: f.violation}
+			Toolchain: "go1.26.8", Race: strings.HasSuffix(f.scen, "+race"), Violation: f.violation}
 		path := filepath.Join(verifDir, "replays", fmt.Sprintf("%s-%s-%s.json", prop, safeName(f.Oracle), safeName(f.Key)))
 		writeJSON(path, rf)
-		verdicts = append(verdicts, verdict{v: f.violation, replay: path, known: isKnown(known, f.violation), scen: crashInfo[f.Key]})
+		verdicts = append(verdicts, verdict{v: f.violation, replay: path, known: isKnown(known, f.violation), scen: f.scen})
 	}
 
 	// ------------------------------------------------------------ evidence
@@ -816,6 +830,20 @@ func crashExcerpt(stderr string) string {
 	if j := strings.Index(stderr, "WARNING: DATA RACE"); j >= 0 && (i < 0 || j < i) {
 		i = j
 	}
+	if j := strings.Index(stderr, "WEDGE: "); j >= 0 {
+		// the waiting goroutines and the holder: the blocks of the dump that mention the repository
+		var keep []string
+		for _, g := range strings.Split(stderr[j:], "\n\n") {
+			if strings.Contains(g, "vipnode/vipnode") && strings.Contains(g, "synctest bubble") && len(keep) < 6 {
+				if len(g) > 900 {
+					g = g[:900]
+				}
+				keep = append(keep, g)
+			}
+		}
+		l, _, _ := strings.Cut(stderr[j:], "\n")
+		return l + "\n" + strings.Join(keep, "\n\n")
+	}
 	if i < 0 {
 		i = 0
 	}
@@ -886,7 +914,7 @@ func doReplay(prop, path, binDir string) {
 	}
 	os.Stderr.Write([]byte(tailStr(se.String(), 4000)))
 	os.Remove(bin)
-	if real && (rf.Violation.Oracle == "process_crash" || rf.Violation.Oracle == "data_race") && strings.HasSuffix(rf.Violation.Key, origin) {
+	if real && (rf.Violation.Oracle == "process_crash" || rf.Violation.Oracle == "data_race" || rf.Violation.Oracle == "process_wedge") && strings.HasSuffix(rf.Violation.Key, origin) {
 		fmt.Printf("REPLAY: reproduced: %s in %s\n", head, origin)
 		fmt.Printf("VIOLATION property=%s replay=%s\n", prop, path)
 		os.Exit(1)
